@@ -38,7 +38,7 @@ VerdictBig(r) ==
          IF a # "ok" THEN [id |-> r.id, v |-> "decodes-to-different-bytes", why |-> a, kinds |-> Kinds(p.toks)]
          ELSE [id |-> r.id, v |-> "ok", why |-> "", kinds |-> Kinds(p.toks)]
 
-BigLimit == 8192
+BigLimit == 4096
 Verdict(r) ==
     IF Len(r.x) > BigLimit THEN VerdictBig(r) ELSE
     LET p == Parse(r.c)
